@@ -98,4 +98,7 @@ OncePerBoundary == [][(phase = "run" /\ phase' = "run" /\ hist'[Len(hist')].fire
 \* rescheduling starts from the arrival instant, never from the stale schedule: the new schedule is the
 \* first boundary after now', so no boundary between now' and next' is skipped and none is in the past
 RescheduleFromNow == [][(phase = "run" /\ phase' = "run" /\ hist'[Len(hist')].fire) => next' = NextTime(now', cfg.unit, cfg.n, cfg.mod)]_vars
+\* (Instants here are whole seconds.  A real arrival lies somewhere inside its second; boundaries are whole seconds, so
+\* Fires and NextTime do not depend on where: the last nanosecond before a boundary is before it.  The replay places
+\* every arrival at a fraction of its second - 0, 1 ns, the middle, the last half millisecond, the last nanosecond.)
 =============================================================================
